@@ -54,6 +54,8 @@ fn main() {
         "C06" => dispatch(&props::c06::P, &args),
         "C07" => dispatch(&props::c07::P, &args),
         "C08" => dispatch(&props::c08::P, &args),
+        "C09" => dispatch(&props::c09::P, &args),
+        "C10" => dispatch(&props::c10::P, &args),
         "C11" => dispatch(&props::c11::P, &args),
         "C15" => dispatch(&props::c15::P, &args),
         other => {
